@@ -674,7 +674,8 @@ def check_run(ctx, d, cfg, cap, fault, num_iter, label):
         # input class in the signature: Anderson off / on / on with a numerically rank-deficient least-squares problem (the
         # recorded finding is only the last one), and full vs. reduced formulation
         aa_cls = "off" if not cfg.aa else ("degenerate-lstsq" if cap.get("aa_degenerate") else "on")
-        deg = f":degenerate-mobility:{cfg.solver}" if (degenerate or cap.get("degenerate_iterates")) else ""
+        # (the Anderson finding takes precedence: a blown-up iterate makes every later weight degenerate as a consequence)
+        deg = f":degenerate-mobility:{cfg.solver}" if ((degenerate or cap.get("degenerate_iterates")) and aa_cls != "degenerate-lstsq") else ""
         ctx.fail(f"{sig0}:mass-balance:anderson={aa_cls}:{'full' if cfg.formulation == 'full' else 'reduced'}-formulation{deg}",
                  f"returned flux violates the discrete mass balance: |D u - f|_inf = {err:.3e} > {tol:.3e} ({label})", rp)
     # (2) reported distance is the cost of exactly the returned flux
